@@ -1024,12 +1024,28 @@ def rec_geom(ck, fm: FuncModel, loop):
         if any(_assigns(fm, loop, b) for b in bound_names):
             probs.append("the budget bound changes inside the loop")
         ass = _assigns(fm, loop, X)
-        if newname is None or not ass or not all(a.kind == "stmt" and isinstance(a.ast, ast.Assign) and text(a.ast.value) == newname for a in ass):
+        # the same test with the old length remembered: `prev = len(X); X = filter(.., X, ..); if len(X) == prev and ..`
+        shape_b = False
+        other = [s_ for s_ in (eq.left, eq.comparators[0]) if f"len({X})" != text(s_)]
+        if newname is None and other and isinstance(other[0], ast.Name) and ass:
+            tn_ = fm.cfg.nodes[next(iter(fm.cfg.g.predecessors(
+                next(b_ for b_ in fm.cfg.dominators(n) if b_.kind == "branch" and b_.test is not None and b_.id in _loop_ids(fm, loop)).id)))]
+            sdp = fm.single_def(other[0].id, tn_)
+            if sdp and text(sdp[1]) == f"len({X})" and sdp[0].id in _loop_ids(fm, loop) \
+                    and all(a.kind == "stmt" and isinstance(a.ast, ast.Assign) and isinstance(a.ast.value, ast.Call)
+                            and any(text(x_) == X for x_ in list(a.ast.value.args) + [k_.value for k_ in a.ast.value.keywords])
+                            and fm.cfg.dominates(sdp[0], a) for a in ass):
+                shape_b = True
+                newname = X
+        if shape_b:
+            if hdr.id in _within(fm, loop, tb, {a.id for a in ass}):
+                probs.append(f"`{X}` is not replaced on every path to the next iteration")
+        elif newname is None or not ass or not all(a.kind == "stmt" and isinstance(a.ast, ast.Assign) and text(a.ast.value) == newname for a in ass):
             probs.append(f"`{X}` is not replaced by the filtered list the exit test compares it with")
         elif hdr.id in _within(fm, loop, tb, {a.id for a in ass}):
             probs.append(f"`{X}` is not replaced on every path to the next iteration")
         # `new` must be the result of a filter of X (not larger)
-        if newname:
+        if newname and not shape_b:
             sd = [d for d in fm.cfg.reaching_defs(newname, n)]
             okf = all(d.kind == "stmt" and isinstance(d.ast, ast.Assign) and isinstance(d.ast.value, ast.Call)
                       and any(text(a) == X for a in list(d.ast.value.args) + [k.value for k in d.ast.value.keywords]) for d in sd)
